@@ -25,7 +25,8 @@ DEMO_PATH="$(tr -d '\n\r ' < "$SRC/demo_path.txt")"
 CRATE="$(echo "$DEMO_PATH" | sed -E 's#^rs/([^/]+)/.*#\1#')"
 KIND="$(echo "$DEMO_PATH" | sed -E 's#^rs/[^/]+/([^/]+)/.*#\1#')"
 TNAME="$(basename "$DEMO_PATH" .rs)"
-if [ "$KIND" = "examples" ]; then DEMOCMD=(cargo run -j 8 --offline -p "$CRATE" --example "$TNAME"); else DEMOCMD=(cargo test -j 8 --offline -p "$CRATE" --test "$TNAME"); fi
+FEAT=(); if grep -q 'feature = "verif"' "$SRC/demo.rs"; then FEAT=(--features verif); fi
+if [ "$KIND" = "examples" ]; then DEMOCMD=(cargo run -j 8 --offline -p "$CRATE" "${FEAT[@]}" --example "$TNAME"); else DEMOCMD=(cargo test -j 8 --offline -p "$CRATE" "${FEAT[@]}" --test "$TNAME"); fi
 mkdir -p "$(dirname "$R/$DEMO_PATH")"; cp "$SRC/demo.rs" "$R/$DEMO_PATH"
 ( cd "$R" && "${DEMOCMD[@]}" ) > "$OUT/demo_clean.log" 2>&1; DEMO_CLEAN=$?
 APPLY=0; ( cd "$R" && git apply "$SRC/patch.diff" ) > "$OUT/apply.log" 2>&1 || APPLY=1
